@@ -1236,8 +1236,9 @@ async def subscribe_handler(service: UpnpServerService, request: Request) -> Res
         # AFTER response completion
         await resp.prepare(request)
         await resp.write_eof()
-        await service.async_send_events(subscriber)
+        # register first: a change during the initial delivery must reach the new subscriber
         service.add_subscriber(subscriber)
+        await service.async_send_events(subscriber)
     return resp
 
 
